@@ -115,8 +115,8 @@ def pristine(fmt, prec, scen, method):
         sc, pps = spec.build(scen_spec(scen))
         # the reference writer is the oracle's own business: the library's process-global decimal precision is put back afterwards, so that the
         # explored history (and the canonical form of its state) never depends on when a reference content happened to be computed
-        from commonroad.common.writer.file_writer_interface import precision as _glob
-        saved = _glob.decimals
+        _glob = _global_precision()
+        saved = getattr(_glob, "decimals", None)
         try:
             w = CommonRoadFileWriter(sc, pps, sc.author, sc.affiliation, sc.source, sc.tags, sc.location, decimal_precision=prec,
                                      file_format=FileFormat.XML if fmt == "xml" else FileFormat.PROTOBUF)
@@ -124,7 +124,8 @@ def pristine(fmt, prec, scen, method):
             getattr(w, method)(fn, OverwriteExistingFile.ALWAYS)
             _pristine[key] = mask(fmt, open(fn, "rb").read())
         finally:
-            _glob.decimals = saved
+            if _glob is not None and saved is not None:
+                _glob.decimals = saved
         import shutil
         shutil.rmtree(d, ignore_errors=True)
     return _pristine[key]
@@ -239,9 +240,19 @@ def step(world, model, op):
     return (obs["status"], obs), m
 
 
+def _global_precision():
+    """the library's process-global decimal precision object, if it (still) has one: read for state de-duplication and put back after the oracle's
+    own writes; never used by an oracle"""
+    try:
+        from commonroad.common.writer.file_writer_interface import precision
+        return precision
+    except Exception:
+        return None
+
+
 def canon(world, model):
-    from commonroad.common.writer.file_writer_interface import precision
-    return (json.dumps(model["writers"]), precision.decimals, model["nfiles"])
+    g = _global_precision()
+    return (json.dumps(model["writers"]), getattr(g, "decimals", None), model["nfiles"])
 
 
 def relation(model_before, op):
